@@ -290,10 +290,8 @@ def dist_fix_point_bcd(W, grad_ws, lipschitz_ws, datafit, penalty, ws):
     dist = np.zeros(ws.shape[0])
 
     for idx, j in enumerate(ws):
-        if lipschitz_ws[idx] == 0.:
-            continue
-
-        step_j = 1 / lipschitz_ws[idx]
+        # zero column: same large step as the BCD epochs use
+        step_j = 1 / lipschitz_ws[idx] if lipschitz_ws[idx] != 0. else 1000.
         dist[idx] = norm(
             W[j] - penalty.prox_1feat(W[j] - step_j * grad_ws[idx], step_j, j)
         )
@@ -408,7 +406,8 @@ def _bcd_epoch(X, Y, W, XW, lc, datafit, penalty, ws):
     """
     n_tasks = Y.shape[1]
     for j in ws:
-        if lc[j] == 0.:
+        if lc[j] == 0.:  # X[:, j] == 0: W[j] only enters the penalty
+            W[j, :] = penalty.prox_1feat(W[j, :].copy(), 1000., j)
             continue
         Xj = X[:, j]
         old_W_j = W[j, :].copy()  # copy is very important here
@@ -459,7 +458,8 @@ def _bcd_epoch_sparse(X_data, X_indptr, X_indices, Y, W, XW, lc, datafit, penalt
         Features to be updated.
     """
     for j in ws:
-        if lc[j] == 0.:
+        if lc[j] == 0.:  # X[:, j] == 0: W[j] only enters the penalty
+            W[j, :] = penalty.prox_1feat(W[j, :].copy(), 1000., j)
             continue
         old_W_j = W[j, :].copy()
         grad_j = datafit.gradient_j_sparse(X_data, X_indptr, X_indices, Y, XW, j)
